@@ -6,7 +6,7 @@ TR = ['C20_Outcome', 'C20_GracefulEnd', 'C20_Blocked', 'C20_Restart']
 
 
 def run(tier):
-    f = vise.Family(PID, tier, MC, TR, ['ends', 'flags', 'nav'], modes=('P',) if tier != 'thorough' else ('P', 'L'), matcher=vise.known_matcher(PID))
+    f = vise.Family(PID, tier, MC, TR, ['ends', 'flags', 'nav', 'rempty', 'first'], modes=('P',) if tier != 'thorough' else ('P', 'L'), matcher=vise.known_matcher(PID))
     f.out.assumptions = ['persisted operation = fresh engine + fresh Persister per request over mem / fs / pg-fake',
                          'engine configuration without a first function (runFirst clears TERMINATE by design)']
     t = f.thorough
